@@ -62,6 +62,9 @@ pub const RANGLE: &str = "\u{27E9}";
 /// The symbol `|`
 pub const PIPE: &str = "|";
 
+/// The symbol `//` that starts a comment
+pub const COMMENT: &str = "//";
+
 /// The symbol `0`
 pub const ZERO: &str = "0";
 
